@@ -37,7 +37,7 @@ ASSUMPTIONS = [
 MIN_NONTRIVIAL = {'quick': 12000, 'thorough': 200000}
 REQUIRED_MONITORS = ['boundary:PLSSDesc', 'boundary:find_twprge',
                      'contract:unpack_twprge', 'default-filled',
-                     'hostile-neighbour', 'ocr', 'pair',
+                     'hostile-neighbour', 'ocr', 'ocr:no-digit-left', 'pair',
                      'channel:config-object-vs-later-master', 'segment-mode',
                      'channel:master-after-creation',
                      'ocr-on-in-default-channels', 'boundary:preprocess']
@@ -260,7 +260,41 @@ def check_ocr(rng, ctx, rep, pytrs):
         return s[:i] + rng.choice(OCR_MAP[s[i]]) + s[i + 1:], True
     ts, c1 = corrupt(t)
     rs, c2 = corrupt(r)
+    nodigit = rng.random() < 0.25
+    if nodigit:
+        # every digit of both numbers misread, and no other digit anywhere
+        # in the text
+        pool = [n for n in list(range(1, 200))
+                if all(c in OCR_MAP for c in str(n))]
+        t, r = rng.choice(pool), rng.choice([n for n in pool if n != 2])
+        ts = ''.join(rng.choice(OCR_MAP[c]) for c in str(t))
+        rs = ''.join(rng.choice(OCR_MAP[c]) for c in str(r))
+        c1 = c2 = True
     if not (c1 or c2):
+        return
+    if nodigit:
+        ctx.hit('ocr:no-digit-left')
+        txt = (f"T{ts}{ns.upper()}-R{rs}{ew.upper()}" if rng.random() < 0.5 else
+               f"Township {ts} {'North' if ns == 'n' else 'South'}, Range {rs} "
+               f"{'East' if ew == 'e' else 'West'}") + rng.choice(
+                   ['', ' the north half', ', Section fourteen'])
+        case = {'ocr': True, 'text': txt, 't': t, 'r': r, 'ns': ns, 'ew': ew}
+        rep.set_case(case)
+        ctx.case(txt, True, shape='ocr:no-digit', sample={'text': txt})
+        with ctx.guard(case):
+            want = f"T{t}{ns.upper()}-R{r}{ew.upper()}"
+            ft = pytrs.find_twprge(txt, ocr_scrub=True)
+            if ft != [want]:
+                ctx.violation('ocr_scrub-find_twprge', case,
+                              f"find_twprge({txt!r}, ocr_scrub=True) == {ft}, "
+                              f"expected [{want!r}]", dedup='nodigit')
+            d = pytrs.PLSSDesc(txt, config='ocr_scrub')
+            got = [x.twprge for x in d.tracts]
+            if got != [f"{t}{ns}{r}{ew}"]:
+                ctx.violation('ocr_scrub', case,
+                              f"{txt!r} with ocr_scrub gives Twp/Rge {got}, "
+                              f"expected {[f'{t}{ns}{r}{ew}']} (pp "
+                              f"{short(d.pp_desc, 60)!r})", dedup='nodigit')
         return
     if rng.random() < 0.7:
         txt = f"T{ts}{ns.upper()}-R{rs}{ew.upper()} Sec 14: NE/4"
